@@ -158,7 +158,7 @@ func digits(r *prng, n int) string { return text(r, n, 0) }
 
 var ecLevels = []decoder.ErrorCorrectionLevel{decoder.ErrorCorrectionLevel_L, decoder.ErrorCorrectionLevel_M, decoder.ErrorCorrectionLevel_Q, decoder.ErrorCorrectionLevel_H}
 
-var aztecFiles []string
+var aztecFiles, rssFiles, photoFiles []string
 
 func loadPNG(path string) (image.Image, error) {
 	f, err := os.Open(path)
@@ -368,6 +368,45 @@ func runOp(in *instances, op OpSpec) (d string) {
 		bmp, _ := gozxing.NewBinaryBitmapFromImage(img)
 		res, err := in.az.Decode(bmp, nil)
 		return digestResult(res, err)
+	case "rssimg", "photo":
+		// sample photographs shipped with the repository (RSS-14 symbols, which
+		// no writer can produce, and real-world Data Matrix images): reader
+		// state such as RSS pair lists must stay per instance
+		files := rssFiles
+		if op.K == "photo" {
+			files = photoFiles
+		}
+		if len(files) == 0 {
+			return "no files"
+		}
+		f := files[op.P%len(files)]
+		img, err := loadPNG(f)
+		if err != nil {
+			return "load " + err.Error()
+		}
+		bmp, _ := gozxing.NewBinaryBitmapFromImage(img)
+		var res *gozxing.Result
+		if op.K == "rssimg" {
+			if in.rss14 == nil {
+				in.rss14 = rss.NewRSS14Reader()
+			}
+			var pts int
+			hints := map[gozxing.DecodeHintType]interface{}{}
+			if r.intn(2) == 0 {
+				hints[gozxing.DecodeHintType_TRY_HARDER] = true
+			}
+			if r.intn(2) == 0 {
+				hints[gozxing.DecodeHintType_NEED_RESULT_POINT_CALLBACK] = gozxing.ResultPointCallback(func(gozxing.ResultPoint) { pts++ })
+			}
+			res, err = in.rss14.Decode(bmp, hints)
+			return filepath.Base(f) + fmt.Sprintf(" pts=%d ", pts) + digestResult(res, err)
+		}
+		if in.dmr == nil {
+			in.dmw = datamatrix.NewDataMatrixWriter()
+			in.dmr = datamatrix.NewDataMatrixReader()
+		}
+		res, err = in.dmr.Decode(bmp, nil)
+		return filepath.Base(f) + " " + digestResult(res, err)
 	case "faint":
 		// a 1-D symbol printed with little contrast (grey bars on a grey
 		// background): usually "not found" - and it must be the same answer
@@ -662,4 +701,8 @@ func findAztec(repo string) {
 	m, _ := filepath.Glob(filepath.Join(repo, "aztec/testdata/aztec-1/*.png"))
 	sort.Strings(m)
 	aztecFiles = m
+	rssFiles, _ = filepath.Glob(filepath.Join(repo, "oned/rss/testdata/*.png"))
+	sort.Strings(rssFiles)
+	photoFiles, _ = filepath.Glob(filepath.Join(repo, "datamatrix/testdata/*.png"))
+	sort.Strings(photoFiles)
 }
